@@ -491,7 +491,7 @@ func (m *Memory) FindLatest(
 			}
 			// Inactive
 			for _, state := range query.Inactive {
-				if am.IsActiveTick(t.MTimeTracked[mach.Index1(state)]) {
+				if am.IsActiveTick(t.MTimeTracked[m.Index1(state)]) {
 					continue records
 				}
 			}
